@@ -66,9 +66,18 @@ use {
         guarded,
         R,
     },
-    std::time::{
-        Duration,
-        Instant,
+    std::{
+        sync::{
+            atomic::{
+                AtomicU64,
+                Ordering as AtomicOrdering,
+            },
+            Mutex,
+        },
+        time::{
+            Duration,
+            Instant,
+        },
     },
 };
 
@@ -147,7 +156,94 @@ impl Ctx {
     }
 }
 
+// ---- global watchdog: a library call that never returns is a violation ----
+
+/// the case being evaluated right now: (epoch, property, input fields)
+static CURRENT: Mutex<Option<(u64, &'static str, Vec<(String, J)>)>> = Mutex::new(None);
+static EPOCH: AtomicU64 = AtomicU64::new(0);
+/// serialises the final line of output between main and the watchdog
+static OUTPUT: Mutex<bool> = Mutex::new(false);
+
+fn case_timeout() -> Duration {
+    Duration::from_secs(
+        std::env::var("SEARCH_CASE_TIMEOUT_SECS")
+            .ok()
+            .and_then(|s| s.parse::<u64>().ok())
+            .unwrap_or(10),
+    )
+}
+
+/// Background thread: if the SAME case stays current for longer than the
+/// case timeout, print it as FOUND (it replays under the same watchdog) and
+/// end the process.
+fn start_watchdog() {
+    let limit = case_timeout();
+    let _ = std::thread::spawn(move || {
+        let mut seen: Option<(u64, Instant)> = None;
+        loop {
+            std::thread::sleep(Duration::from_millis(250));
+            let epoch = CURRENT
+                .lock()
+                .unwrap_or_else(|e| e.into_inner())
+                .as_ref()
+                .map(|c| c.0);
+            match (epoch, seen) {
+                (None, _) => seen = None,
+                (Some(e), Some((s, t))) if e == s => {
+                    if t.elapsed() >= limit {
+                        let done = OUTPUT.lock().unwrap_or_else(|e| e.into_inner());
+                        if *done {
+                            return;
+                        }
+                        let slot = CURRENT.lock().unwrap_or_else(|e| e.into_inner());
+                        if let Some((e2, prop, fields)) = slot.as_ref() {
+                            if *e2 == s {
+                                let secs = limit.as_secs();
+                                let mut o = vec![
+                                    ("property".to_string(), J::s(prop)),
+                                    ("function".to_string(), J::s(model::cur_global())),
+                                ];
+                                o.extend(fields.iter().cloned());
+                                o.push((
+                                    "violation".to_string(),
+                                    J::Str(format!(
+                                        "the library call did not return within {secs} s (non-termination)"
+                                    )),
+                                ));
+                                o.push(("check".to_string(), J::s("every library call on this input returns")));
+                                o.push(("expected".to_string(), J::s("returns")));
+                                o.push(("actual".to_string(), J::Str(format!("still running after {secs} s"))));
+                                println!("FOUND {}", J::Obj(o));
+                                use std::io::Write;
+                                let _ = std::io::stdout().flush();
+                                std::process::exit(0);
+                            }
+                        }
+                        seen = None;
+                    }
+                }
+                (Some(e), _) => seen = Some((e, Instant::now())),
+            }
+        }
+    });
+}
+
+/// the one final line of output (unless the watchdog already printed)
+fn final_line(line: &str) {
+    let mut done = OUTPUT.lock().unwrap_or_else(|e| e.into_inner());
+    *done = true;
+    println!("{line}");
+}
+
 pub fn eval_case<C: Case>(c: &C) -> Option<J> {
+    let epoch = EPOCH.fetch_add(1, AtomicOrdering::Relaxed) + 1;
+    *CURRENT.lock().unwrap_or_else(|e| e.into_inner()) = Some((epoch, c.prop(), c.fields()));
+    let r = eval_case_unwatched(c);
+    *CURRENT.lock().unwrap_or_else(|e| e.into_inner()) = None;
+    r
+}
+
+fn eval_case_unwatched<C: Case>(c: &C) -> Option<J> {
     match guarded(|| c.run()) {
         Ok(()) => None,
         Err(f) => {
@@ -225,6 +321,7 @@ fn main() {
     // library panics are expected in many checks; keep stderr quiet
     std::panic::set_hook(Box::new(|_| {}));
     let prop = args[1].as_str();
+    start_watchdog();
     if args[2] == "--replay" {
         let Some(text) = args.get(3) else { usage() };
         let j = match json::parse(text) {
@@ -235,8 +332,8 @@ fn main() {
             }
         };
         match replay(prop, &j) {
-            Ok(Some(f)) => println!("FOUND {f}"),
-            Ok(None) => println!("PASS"),
+            Ok(Some(f)) => final_line(&format!("FOUND {f}")),
+            Ok(None) => final_line("PASS"),
             Err(e) => {
                 eprintln!("search: bad replay input for {prop}: {e}");
                 std::process::exit(2);
@@ -256,8 +353,8 @@ fn main() {
             selftest,
         };
         match search(prop, seed, &mut ctx) {
-            Some(f) => println!("FOUND {f}"),
-            None => println!("NONE evaluated={}", ctx.evaluated),
+            Some(f) => final_line(&format!("FOUND {f}")),
+            None => final_line(&format!("NONE evaluated={}", ctx.evaluated)),
         }
     }
 }
